@@ -4,6 +4,8 @@ From Coq Require Import List NArith Permutation.
 From Goit Require Import Bytes Config ConfigFacts.
 From Goit Require Import World Repo BranchFacts ConfigCmdFacts.
 From Goit Require Import Bridge.
+From Goit Require Import Inv.
+From Goit Require CtxFacts.
 Import ListNotations.
 
 (* T0 (tie to the source): every regexp literal of the current Go source denotes
@@ -84,6 +86,31 @@ Theorem C20_commit_records_effective_identity : forall e w x msg w' out tr,
     am_get (w_refs w') (w_head w') = Some cid /\ Obj.st_lookup (w_objs w') cid = Some (Obj.payload Obj.KCommit data).
 Proof. exact commit_records_identity. Qed.
 
+(* on every reachable repository both configuration files load, as well-formed
+   configurations: `config` refuses the arguments (an empty section name, a
+   line feed in "<section>.<key>" or in the value) that would write a file no
+   command can load afterwards *)
+Theorem C20_config_files_always_load : forall w, Reachable w -> ConfigCmdFacts.CfgGood w.
+Proof. exact CtxFacts.reachable_cfgs_load. Qed.
+
+(* the refusals (exit 1, nothing written, the world unchanged): in general, and
+   by computation for `init; config .k v`, `init; config user.name "a\nb"`,
+   `init; config "us\ner.name" x`; `config user.name "ok name"` still works *)
+Theorem C20_hostile_config_refused :
+  (forall e g key value w, In c_nl value -> step (ACmd e (CConfig g [key; value])) w = (w, OErr, [])) /\
+  (forall e g key value w, In c_nl key -> step (ACmd e (CConfig g [key; value])) w = (w, OErr, [])) /\
+  (forall e g k value w, step (ACmd e (CConfig g [x2e :: k; value])) w = (w, OErr, [])) /\
+  (forall c, In c [CConfig false [str ".k"; str "v"];
+                   CConfig false [str "user.name"; [x61; x0a; x62]];
+                   CConfig false [(str "us" ++ [x0a] ++ str "er.name")%list; str "x"]] ->
+     step (ACmd env0 c) (run [ACmd env0 CInit] w_empty) = (run [ACmd env0 CInit] w_empty, OErr, []) /\
+     run [ACmd env0 CInit; ACmd env0 c] w_empty = run [ACmd env0 CInit] w_empty) /\
+  w_lcfg (run [ACmd env0 CInit; ACmd env0 (CConfig false [str "user.name"; str "ok name"])] w_empty)
+    = CfgFile (Some [(str "user", [(str "name", str "ok name")])]).
+Proof. exact hostile_config_refused_summary. Qed.
+
+Print Assumptions C20_config_files_always_load.
+Print Assumptions C20_hostile_config_refused.
 Print Assumptions C20_roundtrip_any_order.
 Print Assumptions C20_set_then_load.
 Print Assumptions C20_local_first.
